@@ -155,7 +155,7 @@ def compile_perrun(ctx, files, timeout=300):
     pdir = os.path.join(ctx.build, 'P')
     os.makedirs(pdir, exist_ok=True)
     ok_all = True
-    failed = set()          # module names of per-run files that did not compile
+    failed = ctx.failed_perrun = set()          # module names of per-run files that did not compile
     for f in files:
         src = os.path.join(COQ, 'PerRun', f)
         dst = os.path.join(pdir, f)
